@@ -1,59 +1,43 @@
-/-! Prototype: greedy clumping loop (clump.py: GetNextIndexVariant / QueryWindow / RemoveClump / clumpstr) -/
+import HapModel.Model.NextIndex
+/-!
+# C17 model: greedy clumping loop (`clump.py`: `Load`, `GetNextIndexVariant`, `QueryWindow`, `RemoveClump`,
+the `while indexvar is not None` loop of `clumpstr`)
 
-structure SVar where
-  uid : Nat          -- position in the loaded list (object identity in Python)
-  chrom : String
-  pos : Int
-  pnum : Nat         -- p-value as exact rational pnum/pden
-  pden : Nat
-deriving Repr, DecidableEq
-
+p-values are exact integers (numerators over one common denominator `one`); the LD decision
+`r² > clump_r2` (false for NaN / no overlapping samples) is a parameter `inLD`.
+-/
 namespace Clump
+open NextIndex
 
-def pLt (a b : SVar) : Bool := a.pnum * b.pden < b.pnum * a.pden
+/-- `SummaryStats.Load`: keeps the lines with `p ≤ p2`, in file order -/
+def load (p2 : Nat) (vars : List V) : List V := vars.filter (fun v => decide (v.p ≤ p2))
 
-/-- `GetNextIndexVariant`: first variant with the strictly smallest p among those with p < p1 (and p < 1). -/
-def nextIndex (below : SVar → Bool) : List SVar → Option SVar
-  | [] => none
-  | v :: vs =>
-    match nextIndex below vs with
-    | none => if below v then some v else none
-    | some b => if below v && !(pLt b v) then some v else some b   -- ties: earlier wins
+/-- `QueryWindow`: same chromosome and `|Δpos| / 1000 < kb`, with `win = 1000·kb` -/
+def window (win : Nat) (idx c : V) : Bool := (c.chrom == idx.chrom) && decide ((c.pos - idx.pos).natAbs < win)
 
-theorem nextIndex_mem {below : SVar → Bool} : ∀ {vars : List SVar} {idx : SVar},
-    nextIndex below vars = some idx → idx ∈ vars
-  | [], _, h => by simp [nextIndex] at h
-  | v :: vs, idx, h => by
-    unfold nextIndex at h
-    split at h
-    · split at h
-      · simp at h; simp [h]
-      · simp at h
-    · rename_i b hb
-      have := nextIndex_mem hb
-      split at h
-      · simp at h; simp [h]
-      · simp at h; subst h; simp [this]
-
-/-- one clump: index + members -/
 structure ClumpOut where
-  index : SVar
-  members : List SVar
+  index : V
+  members : List V
+deriving Repr
 
-/-- one iteration of the `while indexvar is not None` loop of `clumpstr`;
-`inLD idx c` is the decision `r2 > clump_r2` (false on NaN) -/
-def clumpStep (below : SVar → Bool) (window inLD : SVar → SVar → Bool)
-    (vars : List SVar) : Option (ClumpOut × List SVar) :=
-  match nextIndex below vars with
+theorem nextIndex_mem {one p1 : Nat} {vars : List V} {idx : V}
+    (h : nextIndex one p1 vars = some idx) : idx ∈ vars := by
+  have := nextIndex_spec one p1 vars
+  rw [h] at this
+  obtain ⟨_, pre, post, hv, _⟩ := this
+  rw [hv]; simp
+
+/-- one iteration of the loop; `RemoveClump(clumpvars + [indexvar])` removes by object identity (`uid`) -/
+def clumpStep (one p1 win : Nat) (inLD : V → V → Bool) (vars : List V) : Option (ClumpOut × List V) :=
+  match nextIndex one p1 vars with
   | none => none
   | some idx =>
-    let members := (vars.filter (window idx)).filter (inLD idx)
-    -- RemoveClump(clumpvars + [indexvar])
+    let members := (vars.filter (window win idx)).filter (inLD idx)
     some ({ index := idx, members := members },
           vars.filter (fun v => !(members.contains v) && v != idx))
 
-theorem clumpStep_lt {below window inLD} {vars rest : List SVar} {c : ClumpOut}
-    (h : clumpStep below window inLD vars = some (c, rest)) : rest.length < vars.length := by
+theorem clumpStep_lt {one p1 win inLD} {vars rest : List V} {c : ClumpOut}
+    (h : clumpStep one p1 win inLD vars = some (c, rest)) : rest.length < vars.length := by
   unfold clumpStep at h
   split at h
   · simp at h
@@ -63,18 +47,23 @@ theorem clumpStep_lt {below window inLD} {vars rest : List SVar} {c : ClumpOut}
     apply List.length_filter_lt_length_iff_exists.mpr
     exact ⟨idx, nextIndex_mem hidx, by simp⟩
 
-def clumpLoop (below : SVar → Bool) (window inLD : SVar → SVar → Bool)
-    (vars : List SVar) : List ClumpOut :=
-  match h : clumpStep below window inLD vars with
+/-- the whole loop; **terminates for every input** (the index variant is always removed) -/
+def clumpLoop (one p1 win : Nat) (inLD : V → V → Bool) (vars : List V) : List ClumpOut :=
+  match h : clumpStep one p1 win inLD vars with
   | none => []
-  | some (c, rest) => c :: clumpLoop below window inLD rest
+  | some (c, rest) => c :: clumpLoop one p1 win inLD rest
 termination_by vars.length
 decreasing_by exact clumpStep_lt h
 
-/-- no variant appears in two clumps (as member or index) -/
-theorem clump_members_sub {below window inLD} {vars rest : List SVar} {c : ClumpOut}
-    (h : clumpStep below window inLD vars = some (c, rest)) :
-    (∀ v ∈ c.members, v ∈ vars ∧ v ∉ rest) ∧ c.index ∈ vars ∧ c.index ∉ rest ∧ (∀ v ∈ rest, v ∈ vars) := by
+def clump (one p1 p2 win : Nat) (inLD : V → V → Bool) (vars : List V) : List ClumpOut :=
+  clumpLoop one p1 win inLD (load p2 vars)
+
+/-- what one step does, spelled out -/
+theorem clumpStep_spec {one p1 win inLD} {vars rest : List V} {c : ClumpOut}
+    (h : clumpStep one p1 win inLD vars = some (c, rest)) :
+    nextIndex one p1 vars = some c.index ∧
+    c.members = (vars.filter (window win c.index)).filter (inLD c.index) ∧
+    rest = vars.filter (fun v => !(c.members.contains v) && v != c.index) := by
   unfold clumpStep at h
   split at h
   · simp at h
@@ -82,17 +71,77 @@ theorem clump_members_sub {below window inLD} {vars rest : List SVar} {c : Clump
     simp only [Option.some.injEq, Prod.mk.injEq] at h
     obtain ⟨hc, hr⟩ := h
     subst hc; subst hr
-    refine ⟨?_, nextIndex_mem hidx, ?_, ?_⟩
-    · intro v hv
-      have hv' := hv
-      simp only [List.mem_filter] at hv'
-      refine ⟨hv'.1.1, ?_⟩
+    exact ⟨hidx, rfl, rfl⟩
+
+/-- nothing that was clumped (member or index) stays in the pool; the pool only shrinks -/
+theorem clumpStep_removes {one p1 win inLD} {vars rest : List V} {c : ClumpOut}
+    (h : clumpStep one p1 win inLD vars = some (c, rest)) :
+    (∀ v ∈ c.members, v ∈ vars ∧ v ∉ rest) ∧ c.index ∈ vars ∧ c.index ∉ rest ∧ (∀ v ∈ rest, v ∈ vars) := by
+  obtain ⟨hidx, hm, hr⟩ := clumpStep_spec h
+  refine ⟨?_, nextIndex_mem hidx, ?_, ?_⟩
+  · intro v hv
+    refine ⟨?_, ?_⟩
+    · rw [hm] at hv; exact (List.mem_filter.mp (List.mem_filter.mp hv).1).1
+    · rw [hr]
       simp only [List.mem_filter, not_and, Bool.and_eq_true, Bool.not_eq_true', bne_iff_ne]
       intro _ hcon
-      have hc2 : (List.filter (inLD idx) (List.filter (window idx) vars)).contains v = true := by
-        simpa using hv
-      rw [hc2] at hcon; exact absurd hcon (by simp)
-    · simp
-    · intro v hv; exact (List.mem_filter.mp hv).1
+      have : c.members.contains v = true := by simpa using hv
+      rw [this] at hcon; exact absurd hcon (by simp)
+  · rw [hr]; simp
+  · intro v hv; rw [hr] at hv; exact (List.mem_filter.mp hv).1
+
+/-- every variant of every later clump comes from the remaining pool -/
+theorem clumpLoop_sub (one p1 win : Nat) (inLD : V → V → Bool) : ∀ (n : Nat) (vars : List V), vars.length ≤ n →
+    ∀ c ∈ clumpLoop one p1 win inLD vars, c.index ∈ vars ∧ ∀ v ∈ c.members, v ∈ vars := by
+  intro n
+  induction n with
+  | zero =>
+    intro vars hl c hc
+    have : vars = [] := List.length_eq_zero_iff.mp (by omega)
+    subst this
+    rw [clumpLoop] at hc
+    simp [clumpStep, nextIndex] at hc
+  | succ n ih =>
+    intro vars hl c hc
+    rw [clumpLoop] at hc
+    split at hc
+    · cases hc
+    · rename_i c0 rest hstep
+      have hrm := clumpStep_removes hstep
+      rcases List.mem_cons.mp hc with rfl | h
+      · exact ⟨hrm.2.1, fun v hv => (hrm.1 v hv).1⟩
+      · have hlt := clumpStep_lt hstep
+        have := ih rest (by omega) c h
+        exact ⟨hrm.2.2.2 _ this.1, fun v hv => hrm.2.2.2 _ (this.2 v hv)⟩
+
+/-- **no variant appears in two clumps** (as member or index): the clump list is pairwise disjoint -/
+theorem clumps_disjoint (one p1 win : Nat) (inLD : V → V → Bool) : ∀ (n : Nat) (vars : List V), vars.length ≤ n →
+    (clumpLoop one p1 win inLD vars).Pairwise (fun a b =>
+      ∀ v, (v = a.index ∨ v ∈ a.members) → ¬ (v = b.index ∨ v ∈ b.members)) := by
+  intro n
+  induction n with
+  | zero =>
+    intro vars hl
+    have : vars = [] := List.length_eq_zero_iff.mp (by omega)
+    subst this
+    rw [clumpLoop]; simp [clumpStep, nextIndex]
+  | succ n ih =>
+    intro vars hl
+    rw [clumpLoop]
+    split
+    · exact List.Pairwise.nil
+    · rename_i c0 rest hstep
+      have hrm := clumpStep_removes hstep
+      have hlt := clumpStep_lt hstep
+      refine List.Pairwise.cons ?_ (ih rest (by omega))
+      intro b hb v hv hvb
+      have hsub := clumpLoop_sub one p1 win inLD n rest (by omega) b hb
+      have hvrest : v ∈ rest := by
+        rcases hvb with rfl | h
+        · exact hsub.1
+        · exact hsub.2 v h
+      rcases hv with rfl | h
+      · exact hrm.2.2.1 hvrest
+      · exact (hrm.1 v h).2 hvrest
 
 end Clump
